@@ -4,11 +4,11 @@ def prep(ov):
     # the shared channel contract stub becomes a crate-level cfg(kani) module of tracing-appender
     ov.attach_lib_module("tracing-appender", "__verif_c15_chan", open(os.path.join(HERE, "channel_stub.rs")).read())
 PLAN = dict(
-    id="C15", level="other", explanation='Sequential contracts with the crossbeam channel replaced by a contract stub (bounded FIFO; try_send fails iff full/disconnected; send blocks unless disconnected; recv/try_recv pop in order - ASSUMED, listed): Worker::handle_recv / handle_try_recv write a Line whole exactly once and map every other message to its state; Worker::work drains a scripted receive sequence (<= 4 entries) in order, writes each line once, flushes exactly once on a normal exit, returns Err on a write error having consumed only that line; NonBlocking::write / write_all: lossy mode always reports the whole buffer and written + dropped = offered (saturating counter), blocking mode is Ok iff queued and never counts; ErrorCounter::incr_saturating for every counter value; WorkerGuard::drop sends Shutdown once on the data channel (behind queued lines) and only then the rendezvous.',
-    functions_under_contract=['tracing-appender/src/worker.rs: Worker::{handle_recv,handle_try_recv,work}', 'tracing-appender/src/non_blocking.rs: NonBlocking::{write,write_all}, ErrorCounter::{incr_saturating,dropped_lines}, Drop for WorkerGuard'],
+    id="C15", level="other", explanation='Sequential contracts with the crossbeam channel replaced by a contract stub (bounded FIFO; try_send fails iff full/disconnected; send blocks unless disconnected; recv/try_recv pop in order - ASSUMED, listed): Worker::handle_recv / handle_try_recv write a Line whole exactly once and map every other message to its state; Worker::work drains a scripted receive sequence (<= 3 entries) in order, writes each line once, flushes exactly once on a normal exit, returns Err on a write error having consumed only that line; NonBlocking::write / write_all: lossy mode always reports the whole buffer and written + dropped = offered (saturating counter), blocking mode is Ok iff queued and never counts; ErrorCounter::incr_saturating for every counter value. WorkerGuard::drop is not under contract (Kani compiler crash).',
+    functions_under_contract=['tracing-appender/src/worker.rs: Worker::{handle_recv,handle_try_recv,work}', 'tracing-appender/src/non_blocking.rs: NonBlocking::{write,write_all}, ErrorCounter::{incr_saturating,dropped_lines}'],
     trusted_base=["Kani 0.68 / CBMC 6.11 / CaDiCaL; Kani's std build (nightly-2026-08-21), not the repo toolchain's", 'core::fmt::Formatter::pad stubbed to Ok(()) with -Z stubbing (panic-message formatting on infeasible error branches; no harness that uses it reads formatted text)', 'cfg(kani) thread_local! shim and once_cell::sync::Lazy contract stub (see overlay_additions)', 'crossbeam_channel::{Sender::try_send, send, send_timeout, Receiver::recv, try_recv} replaced by scripted contract stubs (-Z stubbing)'],
     assumptions=['the channel contract above (FIFO, exactly-once hand-over, bounded capacity)', 'thread spawn / join and all producer-worker schedules'],
-    not_covered=['real crossbeam channel', 'back-pressure timing', "worker_thread's loop (thread::Builder)"],
+    not_covered=['Drop for WorkerGuard (shutdown ordering): reaching it crashes the Kani compiler (drop-needing std TLS behind eprintln!/join)', 'real crossbeam channel', 'back-pressure timing', "worker_thread's loop (thread::Builder)"],
     kani=[dict(
         crate="tracing-appender", tls_shim_crates=["tracing-core", "tracing-subscriber"], once_cell_stub=True, prepare="prep",
         modules=[dict(name="__verif_c15w", attach="inline", file="tracing-appender/src/worker.rs", modpath="worker", files=["worker.kani.rs"]),
@@ -16,6 +16,6 @@ PLAN = dict(
     )],
     manifest=dict(technique='per-function contracts on the real worker / non-blocking writer with the channel replaced by an assumed contract stub (Kani)',
         text="Sequential part: each function's obligation in the 'accepted = written exactly once, in order; written + dropped = offered' argument is proved on the real code; the channel's FIFO/exactly-once behaviour and all schedules are assumptions, hence `other`.",
-        note='Channel contract and schedules assumed. Worker::work bounded to scripts of 4.',
+        note='Channel contract and schedules assumed. Worker::work bounded to scripts of 3.',
         design_ref="DESIGN.md section 4, C15"),
 )
